@@ -27,12 +27,16 @@ pub fn gcd<const BITS: usize, const LIMBS: usize>(
         debug_assert!(a >= b);
         let m = LehmerMatrix::from(a, b);
         if m == LehmerMatrix::IDENTITY {
+            #[cfg(recmo_uint_verif)]
+            crate::verif_hooks::hit(crate::verif_hooks::Hook::gcd_euclid_step);
             // Lehmer step failed to find a factor, which happens when
             // the factor is very large. We do a regular Euclidean step, which
             // will make a lot of progress since `q` will be large.
             a %= b;
             swap(&mut a, &mut b);
         } else {
+            #[cfg(recmo_uint_verif)]
+            crate::verif_hooks::hit(crate::verif_hooks::Hook::gcd_matrix_step);
             m.apply(&mut a, &mut b);
         }
     }
@@ -90,6 +94,8 @@ pub fn gcd_extended<const BITS: usize, const LIMBS: usize>(
         debug_assert!(a >= b);
         let m = LehmerMatrix::from(a, b);
         if m == LehmerMatrix::IDENTITY {
+            #[cfg(recmo_uint_verif)]
+            crate::verif_hooks::hit(crate::verif_hooks::Hook::gcd_ext_euclid_step);
             // Lehmer step failed to find a factor, which happens when
             // the factor is very large. We do a regular Euclidean step, which
             // will make a lot of progress since `q` will be large.
@@ -102,6 +108,8 @@ pub fn gcd_extended<const BITS: usize, const LIMBS: usize>(
             swap(&mut t0, &mut t1);
             even = !even;
         } else {
+            #[cfg(recmo_uint_verif)]
+            crate::verif_hooks::hit(crate::verif_hooks::Hook::gcd_ext_matrix_step);
             m.apply(&mut a, &mut b);
             m.apply(&mut s0, &mut s1);
             m.apply(&mut t0, &mut t1);
@@ -165,6 +173,8 @@ pub fn inv_mod<const BITS: usize, const LIMBS: usize>(
         debug_assert!(a >= b);
         let m = LehmerMatrix::from(a, b);
         if m == LehmerMatrix::IDENTITY {
+            #[cfg(recmo_uint_verif)]
+            crate::verif_hooks::hit(crate::verif_hooks::Hook::inv_mod_euclid_step);
             // Lehmer step failed to find a factor, which happens when
             // the factor is very large. We do a regular Euclidean step, which
             // will make a lot of progress since `q` will be large.
@@ -175,6 +185,8 @@ pub fn inv_mod<const BITS: usize, const LIMBS: usize>(
             swap(&mut t0, &mut t1);
             even = !even;
         } else {
+            #[cfg(recmo_uint_verif)]
+            crate::verif_hooks::hit(crate::verif_hooks::Hook::inv_mod_matrix_step);
             m.apply(&mut a, &mut b);
             m.apply(&mut t0, &mut t1);
             even ^= !m.4;
